@@ -40,8 +40,11 @@ class Faults:
 
 
 class BinaryPhase:
-    def __init__(self, name, xb=0.25, A=8.0, Q=60000.0, xlim=0.2):
-        self.name, self.xb, self.A, self.Q, self.xlim = name, xb, A, Q, xlim
+    def __init__(self, name, xb=0.25, A=8.0, Q=60000.0, xlim=None):
+        # stability limit of the interfacial matrix composition: well below the pole of the binary growth law at
+        # x_alpha = x_beta * Vm_alpha / Vm_beta (0.77 x_beta for the largest molar-volume ratio used), which no real
+        # interfacial composition approaches
+        self.name, self.xb, self.A, self.Q, self.xlim = name, xb, A, Q, (0.5 * xb if xlim is None else xlim)
 
     def xe(self, T):
         return self.A * np.exp(-self.Q / (R * np.asarray(T, dtype=float)))
